@@ -167,7 +167,7 @@ def highlevel(chk, rng, quick):
     import sopht.simulator as sps
 
     for D in (2, 3):
-        for trial in range(2 if quick else 10):
+        for trial in range(3 if quick else 12):
             real_t = np.float64
             h = 0.125
             grid = (24,) * D
@@ -186,9 +186,9 @@ def highlevel(chk, rng, quick):
                 inter = sps.RigidBodyFlowInteraction(
                     rigid_body=body, eul_grid_forcing_field=forcing, eul_grid_velocity_field=vel, virtual_boundary_stiffness_coeff=k0,
                     virtual_boundary_damping_coeff=c0, dx=h, grid_dim=2, forcing_grid_cls=sps.CircularCylinderForcingGrid,
-                    num_forcing_points=16, enable_eul_grid_forcing_reset=reset, **okw)
+                    num_forcing_points=[16, 6, 40][trial % 3], enable_eul_grid_forcing_reset=reset, **okw)   # resolved / too coarse (> 2 dx) / too fine
             else:
-                n_el = 6
+                n_el = [6, 3, 20][trial % 3]           # marker spacing resolved / coarser than 2 dx / finer than dx / 2
                 body = ea.CosseratRod.straight_rod(n_el, np.array([1.0, 1.2, 1.1]), np.array([1.0, 0.5, 0.25]) / np.linalg.norm([1.0, 0.5, 0.25]),
                                                    np.array([0.0, 1.0, -2.0]) / np.sqrt(5.0), 0.9, 0.05, density=1e3, youngs_modulus=1e6,
                                                    shear_modulus=1e6 / 1.5)
